@@ -193,6 +193,110 @@ Proof.
     destruct (wf_run fd (skipn (Nat.min k (length (c :: p))) (c :: p)) s) as [[ev ok] r]. cbn [snd length] in *. lia.
 Qed.
 
+(* ------------------------------------------------------------------ the write_fully calls of lbuf_wr *)
+(* IoDefs.write_all with the calls made visible: the payloads are written in order, the first failure stops *)
+Fixpoint wa_run (fd : Z) (ps : list bytes) (s : sched) : list event * bool * sched :=
+  match ps with
+  | [] => ([], true, s)
+  | p :: ps' =>
+    let '(ev, ok, r) := wf_run fd p s in
+    if ok then let '(ev2, ok2, r2) := wa_run fd ps' r in (ev ++ ev2, ok2, r2) else (ev, false, r)
+  end.
+Lemma reached_app a b : reached (a ++ b) = reached a ++ reached b.
+Proof. apply flat_map_app. Qed.
+Lemma wa_run_model fd ps : forall s,
+  let '(ev, ok, r) := wa_run fd ps s in IoDefs.write_all ps s = (reached ev, ok, r).
+Proof.
+  induction ps as [|p ps IH]; intro s; [reflexivity|]. cbn [wa_run IoDefs.write_all].
+  pose proof (wf_run_model fd p s) as H. destruct (wf_run fd p s) as [[ev ok] r]. rewrite H.
+  destruct ok; [|reflexivity]. specialize (IH r). destruct (wa_run fd ps r) as [[ev2 ok2] r2]. rewrite IH, reached_app. reflexivity.
+Qed.
+Lemma wa_run_app fd a b : forall s,
+  wa_run fd (a ++ b) s =
+  let '(ev, ok, r) := wa_run fd a s in
+  if ok then let '(ev2, ok2, r2) := wa_run fd b r in (ev ++ ev2, ok2, r2) else (ev, false, r).
+Proof.
+  induction a as [|p a IH]; intro s.
+  - cbn [app wa_run]. destruct (wa_run fd b s) as [[ev2 ok2] r2]. reflexivity.
+  - cbn [app wa_run]. destruct (wf_run fd p s) as [[ev ok] r]. destruct ok; [|reflexivity].
+    rewrite IH. destruct (wa_run fd a r) as [[ev1 ok1] r1]. destruct ok1; [|reflexivity].
+    destruct (wa_run fd b r1) as [[ev2 ok2] r2]. rewrite app_assoc. reflexivity.
+Qed.
+Lemma wa_run_sched_le fd ps : forall s, (length (snd (wa_run fd ps s)) <= length s)%nat.
+Proof.
+  induction ps as [|p ps IH]; intro s; [cbn; lia|]. cbn [wa_run].
+  pose proof (wf_run_sched_le fd p s) as H. destruct (wf_run fd p s) as [[ev ok] r]. cbn [snd] in H.
+  destruct ok; [|cbn [snd]; exact H]. specialize (IH r). destruct (wa_run fd ps r) as [[ev2 ok2] r2]. cbn [snd] in *. lia.
+Qed.
+(* no error among the outcomes a run consumed <-> the run did not fail *)
+Lemma wf_run_ok_iff fd p s : let '(ev, ok, r) := wf_run fd p s in
+  exists used, s = used ++ r /\ (ok = false <-> In IoDefs.OErr used).
+Proof.
+  revert p; induction s as [|o s IH]; intro p; (destruct p as [|c p]; [exists []; split; [reflexivity|split; [discriminate|intros []]]|]).
+  - cbn [wf_run]. exists []. split; [reflexivity|split; [discriminate|intros []]].
+  - destruct o as [| |k]; cbn [wf_run].
+    + exists [IoDefs.OOk]. split; [reflexivity|split; [discriminate|intros [H|[]]; discriminate]].
+    + exists [IoDefs.OErr]. split; [reflexivity|split; [left; reflexivity|reflexivity]].
+    + specialize (IH (skipn (Nat.min k (length (c :: p))) (c :: p))).
+      destruct (wf_run fd (skipn (Nat.min k (length (c :: p))) (c :: p)) s) as [[ev ok] r].
+      destruct IH as (used & -> & H). exists (IoDefs.OShort k :: used). split; [reflexivity|].
+      rewrite H. split; [intro X; right; exact X|intros [X|X]; [discriminate|exact X]].
+Qed.
+Lemma wa_run_ok_iff fd ps : forall s, let '(ev, ok, r) := wa_run fd ps s in
+  exists used, s = used ++ r /\ (ok = false <-> In IoDefs.OErr used).
+Proof.
+  induction ps as [|p ps IH]; intro s; [exists []; split; [reflexivity|split; [discriminate|intros []]]|]. cbn [wa_run].
+  pose proof (wf_run_ok_iff fd p s) as H. destruct (wf_run fd p s) as [[ev ok] r]. destruct H as (u1 & -> & H1).
+  destruct ok.
+  - specialize (IH r). destruct (wa_run fd ps r) as [[ev2 ok2] r2]. destruct IH as (u2 & -> & H2).
+    exists (u1 ++ u2). split; [apply app_assoc|]. rewrite in_app_iff, H2. split; [intro X; right; exact X|].
+    intros [X|X]; [apply H1 in X; discriminate|exact X].
+  - exists u1. split; [reflexivity|]. rewrite <- H1. split; reflexivity.
+Qed.
+
+(* the payloads lbuf_wr hands to write_fully for one more line l while pend is batched: the new batch, the payloads *)
+Definition line_out (B : nat) (pend l : bytes) : bytes * list bytes :=
+  let fl := (0 <? length pend)%nat && (B <? length pend + length l)%nat in
+  let pend1 := if fl then [] else pend in
+  let out1 := if fl then [pend] else [] in
+  if (B <=? length l)%nat then (pend1, out1 ++ [l]) else (pend1 ++ l, out1).
+Fixpoint lines_out (B : nat) (pend : bytes) (ls : list bytes) : list bytes :=
+  match ls with
+  | [] => if (0 <? length pend)%nat then [pend] else []
+  | l :: r => snd (line_out B pend l) ++ lines_out B (fst (line_out B pend l)) r
+  end.
+Lemma wr_line_out B w l :
+  IoDefs.pend (IoDefs.wr_line B w l) = fst (line_out B (IoDefs.pend w) l) /\
+  IoDefs.outp (IoDefs.wr_line B w l) = IoDefs.outp w ++ snd (line_out B (IoDefs.pend w) l) /\
+  IoDefs.wsz (IoDefs.wr_line B w l) = (IoDefs.wsz w + length l)%nat.
+Proof.
+  unfold IoDefs.wr_line, line_out.
+  destruct ((0 <? length (IoDefs.pend w))%nat && (B <? length (IoDefs.pend w) + length l)%nat);
+    destruct (B <=? length l)%nat; cbn [IoDefs.pend IoDefs.outp IoDefs.wsz fst snd];
+    rewrite <- ?app_assoc, ?app_nil_r; repeat split; reflexivity.
+Qed.
+Lemma lines_out_model B ls : forall w,
+  IoDefs.outp (IoDefs.wr_finish (fold_left (IoDefs.wr_line B) ls w)) = IoDefs.outp w ++ lines_out B (IoDefs.pend w) ls /\
+  IoDefs.wsz (IoDefs.wr_finish (fold_left (IoDefs.wr_line B) ls w)) = (IoDefs.wsz w + length (concat ls))%nat.
+Proof.
+  induction ls as [|l ls IH]; intro w.
+  - cbn [fold_left lines_out concat length]. unfold IoDefs.wr_finish.
+    destruct (0 <? length (IoDefs.pend w))%nat; cbn [IoDefs.outp IoDefs.wsz]; rewrite ?app_nil_r; split; (reflexivity || lia).
+  - cbn [fold_left lines_out concat]. destruct (IH (IoDefs.wr_line B w l)) as [H1 H2]. rewrite H1, H2.
+    destruct (wr_line_out B w l) as (E1 & E2 & E3). rewrite E1, E2, E3, app_length, <- app_assoc. split; [reflexivity|lia].
+Qed.
+Definition BATCH : nat := 4096.
+Lemma BATCH_is : BATCH = IoDefs.BATCH.
+Proof. reflexivity. Qed.
+(* what IoDefs.lbuf_wr computes, in these terms *)
+Lemma lbuf_wr_out lines b e :
+  IoDefs.outp (IoDefs.lbuf_wr lines b e) = lines_out BATCH [] (IoDefs.slice b e lines) /\
+  IoDefs.wsz (IoDefs.lbuf_wr lines b e) = length (concat (IoDefs.slice b e lines)).
+Proof.
+  unfold IoDefs.lbuf_wr, IoDefs.lbuf_wr_gen. rewrite <- BATCH_is.
+  destruct (lines_out_model BATCH (IoDefs.slice b e lines) IoDefs.wst0) as [H1 H2]. rewrite H1, H2. split; reflexivity.
+Qed.
+
 Section Write.
   Variable ext : nat -> list val -> mem -> res (val * mem).
   Variables ks kl : nat.
@@ -370,4 +474,322 @@ Section Write.
     - destruct Y as [-> Y]. destruct (Z.leb_spec 0 nc'); [|lia]. xstep. reflexivity.
     - subst nc'. cbn [Z.leb Z.compare]. xstep. reflexivity.
   Qed.
+
+  (* ---------------------------------------------------------------- lbuf_wr *)
+  Definition nthl (lines : list bytes) (i : nat) : bytes := nth i lines [].
+  (* block lb is a struct lbuf whose ln field points to block bln, an array of pointer cells; cell i of it points
+     (offset 0) to block (nth i lbs), which holds line i as a C string; none of these blocks is a kernel block *)
+  Record lines_at (m : mem) (lb bln : nat) (lbs : list nat) (lines : list bytes) : Prop := mk_lines_at {
+    wa_blk : exists blk, nth_error m lb = Some blk /\ nth_error blk L_ln = Some (VPtr bln 0);
+    wa_ln : exists lnblk, nth_error m bln = Some lnblk /\
+            forall i, (i < length lines)%nat -> nth_error lnblk i = Some (VPtr (nth i lbs O) 0);
+    wa_lbs : length lbs = length lines;
+    wa_str : forall i, (i < length lines)%nat -> str_at m (nth i lbs O) (nthl lines i);
+    wa_nonul : Forall nonul lines;
+    wa_sep : ~ In ks (lb :: bln :: lbs) /\ ~ In kl (lb :: bln :: lbs)
+  }.
+
+  Section Wr.
+    Variable m0 : mem.
+    Variables lb bln : nat.
+    Variable lbs : list nat.
+    Variable lines : list bytes.
+    Variables fd : Z.
+    Variables beg en : nat.
+    Variables d fuel : nat.
+    Variable s0 : sched.
+    Variable lg0 : list event.
+    Hypothesis Hw0 : world_at m0 s0 lg0.
+    Hypothesis Hlines : lines_at m0 lb bln lbs lines.
+    Hypothesis Hen : (en <= length lines)%nat.
+    Hypothesis Hsmall : Z.of_nat (length lines) <= 2147483647.
+    Hypothesis Htotal : Z.of_nat (length (concat lines)) <= 4611686018427387904.
+
+    Let bb : nat := length m0.
+    Let call := callx ext cprog fuel (S (S d)).
+    (* the memory while lbuf_wr runs: the batch block appended, the kernel blocks rewritten, the rest as it was *)
+    Definition wm (bufblk : block) (s : sched) (lg : list event) : mem := set_world (m0 ++ [bufblk]) s lg.
+
+    Lemma ks_lt : (ks < length m0)%nat. Proof. exact (proj1 (world_lt _ _ _ Hw0)). Qed.
+    Lemma kl_lt : (kl < length m0)%nat. Proof. exact (proj2 (world_lt _ _ _ Hw0)). Qed.
+    Lemma wm_nth bufblk s lg k :
+      nth_error (wm bufblk s lg) k =
+      if Nat.eqb k kl then Some (enc_log lg) else if Nat.eqb k ks then Some (enc_sch s)
+      else if Nat.eqb k bb then Some bufblk else nth_error m0 k.
+    Proof.
+      pose proof ks_lt. pose proof kl_lt. unfold wm. rewrite set_world_nth by (rewrite app_length; cbn [length]; lia).
+      destruct (Nat.eqb k kl); [reflexivity|]. destruct (Nat.eqb k ks); [reflexivity|].
+      destruct (Nat.eqb_spec k bb) as [->|Hne]; [apply nth_error_app_new|].
+      destruct (Nat.lt_ge_cases k bb) as [L|L]; [apply nth_error_app_old; exact L|].
+      transitivity (@None block); [|symmetry]; apply nth_error_None; [rewrite app_length; cbn [length]|]; unfold bb in *; lia.
+    Qed.
+    Lemma wm_length bufblk s lg : length (wm bufblk s lg) = S bb.
+    Proof.
+      pose proof ks_lt. pose proof kl_lt. unfold wm. rewrite set_world_length; rewrite app_length; cbn [length]; unfold bb; lia.
+    Qed.
+    Lemma wm_world bufblk s lg : world_at (wm bufblk s lg) s lg.
+    Proof. pose proof ks_lt. pose proof kl_lt. apply set_world_at; rewrite app_length; cbn [length]; lia. Qed.
+    Lemma wm_buf bufblk s lg : nth_error (wm bufblk s lg) bb = Some bufblk.
+    Proof.
+      pose proof ks_lt. pose proof kl_lt. rewrite wm_nth. destruct (Nat.eqb_spec bb kl); [unfold bb in *; lia|].
+      destruct (Nat.eqb_spec bb ks); [unfold bb in *; lia|]. rewrite Nat.eqb_refl. reflexivity.
+    Qed.
+    Lemma wm_old bufblk s lg k : (k < length m0)%nat -> k <> ks -> k <> kl -> nth_error (wm bufblk s lg) k = nth_error m0 k.
+    Proof.
+      intros L N1 N2. rewrite wm_nth. destruct (Nat.eqb_spec k kl); [contradiction|]. destruct (Nat.eqb_spec k ks); [contradiction|].
+      destruct (Nat.eqb_spec k bb); [unfold bb in *; lia|]. reflexivity.
+    Qed.
+    Lemma wm_set_world bufblk s lg s' lg' : set_world (wm bufblk s lg) s' lg' = wm bufblk s' lg'.
+    Proof. pose proof ks_lt. pose proof kl_lt. apply set_world_twice; rewrite app_length; cbn [length]; lia. Qed.
+    Lemma wm_upd_buf bufblk s lg bufblk' : upd (wm bufblk s lg) bb bufblk' = wm bufblk' s lg.
+    Proof.
+      pose proof ks_lt. pose proof kl_lt. apply nth_error_ext_w. intro k.
+      rewrite nth_error_upd_if by (rewrite wm_length; lia). rewrite !wm_nth.
+      destruct (Nat.eqb_spec k bb) as [->|]; [|reflexivity].
+      destruct (Nat.eqb_spec bb kl); [unfold bb in *; lia|]. destruct (Nat.eqb_spec bb ks); [unfold bb in *; lia|]. reflexivity.
+    Qed.
+    Lemma wm_start : m0 ++ [repeat VUndef 4096] = wm (repeat VUndef 4096) s0 lg0.
+    Proof.
+      unfold wm. symmetry. apply set_world_self. destruct Hw0 as [H1 H2]. pose proof ks_lt. pose proof kl_lt.
+      split; rewrite nth_error_app_old by assumption; assumption.
+    Qed.
+
+    (* the blocks of the buffer are untouched *)
+    Lemma old_lb : (lb < length m0)%nat /\ lb <> ks /\ lb <> kl.
+    Proof.
+      destruct Hlines as [(blk & H & _) _ _ _ _ [S1 S2]]. split; [apply nth_error_Some; congruence|].
+      split; intros ->; [apply S1|apply S2]; left; reflexivity.
+    Qed.
+    Lemma old_bln : (bln < length m0)%nat /\ bln <> ks /\ bln <> kl.
+    Proof.
+      destruct Hlines as [_ (blk & H & _) _ _ _ [S1 S2]]. split; [apply nth_error_Some; congruence|].
+      split; intros ->; [apply S1|apply S2]; right; left; reflexivity.
+    Qed.
+    Lemma old_line i : (i < length lines)%nat -> (nth i lbs O < length m0)%nat /\ nth i lbs O <> ks /\ nth i lbs O <> kl.
+    Proof.
+      intro Hi. destruct Hlines as [_ _ Hl Hs _ [S1 S2]]. split; [apply nth_error_Some; rewrite (Hs i Hi); discriminate|].
+      split; intro E; [apply S1|apply S2]; right; right; rewrite <- E; apply nth_In; lia.
+    Qed.
+
+    (* a call of write_fully while lbuf_wr runs *)
+    Lemma wf_call b (blk : block) (p : bytes) bufblk s lg :
+      nth_error (wm bufblk s lg) b = Some blk -> b <> ks -> b <> kl -> bytes_in blk 0 p -> bytes_lt256 p ->
+      Z.of_nat (length p) <= 4611686018427387904 -> (length s + 2 <= fuel)%nat ->
+      let '(ev, ok, r) := wf_run fd p s in
+      callx ext cprog fuel (S (S d)) F_lbuf_write_fully [VInt fd; VPtr b 0; VInt (Z.of_nat (length p))] (wm bufblk s lg)
+      = Ok (VInt (if ok then Z.of_nat (length p) else -1), wm bufblk r (lg ++ ev)).
+    Proof.
+      intros Hb N1 N2 Hp H256 Hsz Hf.
+      pose proof (tr_write_fully fd b 0 blk p s lg (wm bufblk s lg) d fuel (wm_world _ _ _) Hb N1 N2 ltac:(lia) Hp H256 Hsz Hf) as X.
+      destruct (wf_run fd p s) as [[ev ok] r]. rewrite X, wm_set_world. reflexivity.
+    Qed.
+
+    Definition wr_for : stmt := match fn_body cf_lbuf_wr with SSeq _ (SSeq _ (SSeq (SSeq _ f) _)) => f | _ => SSkip end.
+    Definition wr_tail : stmt := match fn_body cf_lbuf_wr with SSeq _ (SSeq _ (SSeq _ t)) => t | _ => SSkip end.
+    Definition wr_body : stmt := match wr_for with SFor _ _ b => b | _ => SSkip end.
+    Definition wr_flush : stmt := match wr_body with SSeq _ (SSeq _ (SSeq f _)) => f | _ => SSkip end.
+    Definition wr_long : stmt := match wr_body with SSeq _ (SSeq _ (SSeq _ (SSeq l _))) => l | _ => SSkip end.
+    Definition wr_st (buf_len sz i : Z) (v8 v9 : val) (M : mem) : state :=
+      mkst [VPtr lb 0; VInt fd; VInt (Z.of_nat beg); VInt (Z.of_nat en); VPtr bb 0; VInt buf_len; VInt sz; VInt i; v8; v9] M.
+
+    (* the batch block: the batched bytes in front *)
+    Definition buf_ok (bufblk : block) (pend : bytes) : Prop :=
+      length bufblk = 4096%nat /\ bytes_in bufblk 0 pend /\ bytes_lt256 pend.
+
+    (* if (buf_len > 0 && buf_len + nl > sizeof(buf)) { if (write_fully(fd, buf, buf_len) < 0) return 1; buf_len = 0; } *)
+    Lemma wr_flush_ok pend nl bufblk s lg sz i v8 f' : buf_ok bufblk pend -> 0 <= nl <= 4611686018427387904 ->
+      (length s + 2 <= fuel)%nat ->
+      let fl := (0 <? Z.of_nat (length pend)) && (4096 <? Z.of_nat (length pend) + nl) in
+      let '(ev, ok, r) := if fl then wf_run fd pend s else ([], true, s) in
+      exec call f' wr_flush (wr_st (Z.of_nat (length pend)) sz i v8 (VInt nl) (wm bufblk s lg))
+      = if ok then ONormal (wr_st (if fl then 0 else Z.of_nat (length pend)) sz i v8 (VInt nl) (wm bufblk r (lg ++ ev)))
+        else OReturn (VInt 1) (wr_st (Z.of_nat (length pend)) sz i v8 (VInt nl) (wm bufblk r (lg ++ ev))).
+    Proof.
+      intros (Hlen & Hin & H256) Hnl Hf fl.
+      assert (Hpl : Z.of_nat (length pend) <= 4096) by (destruct Hin as [_ H]; lia).
+      unfold wr_flush, wr_body, wr_for, wr_st; cbn [fn_body cf_lbuf_wr]. xstep. change (wrap I64 0) with 0.
+      unfold fl. destruct (Z.ltb_spec 0 (Z.of_nat (length pend))) as [H0|H0]; xstep.
+      2:{ rewrite app_nil_r. reflexivity. }
+      rewrite chk_I64 by lia. xstep. rewrite wrap_U64_id by lia.
+      destruct (Z.ltb_spec 4096 (Z.of_nat (length pend) + nl)) as [H1|H1]; xstep.
+      2:{ rewrite app_nil_r. reflexivity. }
+      assert (Nb : bb <> ks /\ bb <> kl) by (pose proof ks_lt; pose proof kl_lt; unfold bb; lia).
+      pose proof (wf_call bb bufblk pend bufblk s lg (wm_buf _ _ _) (proj1 Nb) (proj2 Nb) Hin H256 ltac:(lia) Hf) as X.
+      destruct (wf_run fd pend s) as [[ev ok] r]. unfold call. rewrite X. xstep. change (wrap I64 0) with 0.
+      destruct ok.
+      - destruct (Z.ltb_spec (Z.of_nat (length pend)) 0); [lia|]. xstep. reflexivity.
+      - cbn [Z.ltb Z.compare]. xstep. reflexivity.
+    Qed.
+
+    Lemma buf_ok_put bufblk pend (l : bytes) : buf_ok bufblk pend -> (length pend + length l <= 4096)%nat -> bytes_lt256 l ->
+      buf_ok (put_cells bufblk (length pend) (map VInt (zb l))) (pend ++ l).
+    Proof.
+      intros (Hlen & [Hin Hle] & H256) Hl Hl256. cbn [skipn] in Hin.
+      assert (Lm : length (map VInt (zb l)) = length l) by (unfold zb; rewrite !map_length; reflexivity).
+      split; [rewrite put_cells_length by (rewrite Lm; lia); exact Hlen|]. split; [|apply Forall_app; split; assumption].
+      split; [|rewrite put_cells_length by (rewrite Lm; lia); rewrite app_length; lia].
+      cbn [skipn]. unfold put_cells. rewrite Hin. rewrite app_assoc.
+      replace (length (pend ++ l)) with (length (map VInt (zb pend) ++ map VInt (zb l)))
+        by (unfold zb; rewrite !app_length, !map_length; reflexivity).
+      rewrite firstn_app_exact. unfold zb. rewrite !map_app. reflexivity.
+    Qed.
+    Lemma buf_ok_nil bufblk pend : buf_ok bufblk pend -> buf_ok bufblk [].
+    Proof. intros (Hlen & _ & _). split; [exact Hlen|]. split; [split; [reflexivity|cbn; lia]|constructor]. Qed.
+
+    (* if (nl >= sizeof(buf)) { if (write_fully(fd, ln, nl) < 0) return 1; } else { memcpy(buf + buf_len, ln, nl); buf_len += nl; } *)
+    Lemma wr_long_ok pend (l : bytes) lbi bufblk s lg sz i f' : buf_ok bufblk pend ->
+      nth_error (wm bufblk s lg) lbi = Some (cstr_block (zb l)) -> lbi <> ks -> lbi <> kl -> lbi <> bb -> bytes_lt256 l ->
+      Z.of_nat (length l) <= 4611686018427387904 -> (length s + 2 <= fuel)%nat ->
+      ((length l < 4096)%nat -> (length pend + length l <= 4096)%nat) ->
+      let long := 4096 <=? Z.of_nat (length l) in
+      let '(ev, ok, r) := if long then wf_run fd l s else ([], true, s) in
+      exec call f' wr_long (wr_st (Z.of_nat (length pend)) sz i (VPtr lbi 0) (VInt (Z.of_nat (length l))) (wm bufblk s lg))
+      = if ok then ONormal (wr_st (if long then Z.of_nat (length pend) else Z.of_nat (length pend) + Z.of_nat (length l)) sz i
+                                  (VPtr lbi 0) (VInt (Z.of_nat (length l)))
+                                  (wm (if long then bufblk else put_cells bufblk (length pend) (map VInt (zb l))) r (lg ++ ev)))
+        else OReturn (VInt 1) (wr_st (Z.of_nat (length pend)) sz i (VPtr lbi 0) (VInt (Z.of_nat (length l))) (wm bufblk r (lg ++ ev))).
+    Proof.
+      intros (Hlen & Hin & H256) Hb N1 N2 N3 Hl256 Hsz Hf Hfit long.
+      assert (Hpl : Z.of_nat (length pend) <= 4096) by (destruct Hin as [_ H]; lia).
+      unfold wr_long, wr_body, wr_for, wr_st; cbn [fn_body cf_lbuf_wr]. xstep. rewrite wrap_U64_id by lia.
+      unfold long. destruct (Z.leb_spec 4096 (Z.of_nat (length l))) as [H1|H1]; xstep.
+      - pose proof (wf_call lbi _ l bufblk s lg Hb N1 N2 (bytes_in_cstr l) Hl256 Hsz Hf) as X.
+        destruct (wf_run fd l s) as [[ev ok] r]. unfold call. rewrite X. xstep. change (wrap I64 0) with 0.
+        destruct ok.
+        + destruct (Z.ltb_spec (Z.of_nat (length l)) 0); [lia|]. xstep. reflexivity.
+        + cbn [Z.ltb Z.compare]. xstep. reflexivity.
+      - rewrite (memcpy_ok (wm bufblk s lg) bb _ lbi 0 _ bufblk (cstr_block (zb l)) (wm_buf _ _ _) Hb); try lia.
+        2:{ unfold cstr_block, zb. rewrite app_length, !map_length. cbn [length]. lia. }
+        xstep. rewrite chk_I64 by lia. xstep.
+        replace (Z.to_nat (0 + 1 * Z.of_nat (length pend))) with (length pend) by lia.
+        change (Z.to_nat 0) with 0%nat. rewrite Nat2Z.id. rewrite (proj1 (bytes_in_cstr l)).
+        rewrite wm_upd_buf, app_nil_r. reflexivity.
+    Qed.
+
+
+    Lemma nthl_nonul i : nonul (nthl lines i).
+    Proof.
+      destruct Hlines as [_ _ _ _ H _]. unfold nthl. destruct (Nat.lt_ge_cases i (length lines)) as [L|L].
+      - rewrite Forall_forall in H. apply H. apply nth_In. exact L.
+      - rewrite nth_overflow by exact L. constructor.
+    Qed.
+    Lemma nthl_len i : Z.of_nat (length (nthl lines i)) <= Z.of_nat (length (concat lines)).
+    Proof.
+      unfold nthl. destruct (Nat.lt_ge_cases i (length lines)) as [L|L]; [|rewrite nth_overflow by exact L; cbn; lia].
+      clear - L. revert i L. induction lines as [|x ls IH]; intros i L; [cbn in L; lia|].
+      cbn [concat]. rewrite app_length. destruct i as [|i]; cbn [nth]; [lia|]. cbn [length] in L. specialize (IH i ltac:(lia)). lia.
+    Qed.
+
+    Lemma wrap_I64_small z : 0 <= z <= 4611686018427387904 -> wrap I64 z = z.
+    Proof.
+      intro H. unfold wrap. cbn [ity_bits ity_signed andb]. change (2 ^ 64) with 18446744073709551616.
+      change (2 ^ (64 - 1)) with 9223372036854775808. rewrite Z.mod_small by lia.
+      destruct (Z.leb_spec 9223372036854775808 z); [lia|reflexivity].
+    Qed.
+    Definition wr_szs : stmt := match wr_body with SSeq _ (SSeq _ (SSeq _ (SSeq _ z))) => z | _ => SSkip end.
+    Lemma line_out_eq B pend (l : bytes) :
+      line_out B pend l =
+      let fl := (0 <? length pend)%nat && (B <? length pend + length l)%nat in
+      let long := (B <=? length l)%nat in
+      let pend1 := if fl then [] else pend in
+      (if long then pend1 else pend1 ++ l, (if fl then [pend] else []) ++ (if long then [l] else [])).
+    Proof. unfold line_out. cbv zeta. destruct (B <=? length l)%nat; rewrite ?app_nil_r; reflexivity. Qed.
+
+    (* the second half of the loop body: the long / short decision and sz += nl *)
+    Lemma wr_rest_ok (i : Z) pend1 (l : bytes) lbi bufblk s1 lg1 sz f' : buf_ok bufblk pend1 ->
+      (forall bufblk s lg, nth_error (wm bufblk s lg) lbi = Some (cstr_block (zb l))) -> lbi <> ks -> lbi <> kl -> lbi <> bb ->
+      bytes_lt256 l -> Z.of_nat (length l) <= 4611686018427387904 -> 0 <= sz /\ sz + Z.of_nat (length l) <= 4611686018427387904 ->
+      (length s1 + 2 <= fuel)%nat ->
+      ((length l < 4096)%nat -> (length pend1 + length l <= 4096)%nat) ->
+      let long := (BATCH <=? length l)%nat in
+      let '(ev, ok, r) := wa_run fd (if long then [l] else []) s1 in
+      exists bl' sz' bufblk',
+        exec call f' (SSeq wr_long wr_szs) (wr_st (Z.of_nat (length pend1)) sz i (VPtr lbi 0) (VInt (Z.of_nat (length l))) (wm bufblk s1 lg1))
+        = (if ok then ONormal else OReturn (VInt 1)) (wr_st bl' sz' i (VPtr lbi 0) (VInt (Z.of_nat (length l))) (wm bufblk' r (lg1 ++ ev)))
+        /\ (ok = true -> bl' = Z.of_nat (length (if long then pend1 else pend1 ++ l)) /\ sz' = sz + Z.of_nat (length l) /\
+                         buf_ok bufblk' (if long then pend1 else pend1 ++ l)).
+    Proof.
+      intros Hbuf Hb N1 N2 N3 Hl256 Hll Hsz Hf Hfit long.
+      pose proof (wr_long_ok pend1 l lbi bufblk s1 lg1 sz i f' Hbuf (Hb _ _ _) N1 N2 N3 Hl256 Hll Hf Hfit) as X. cbv zeta in X.
+      assert (El : (4096 <=? Z.of_nat (length l)) = long)
+        by (unfold long, BATCH; destruct (Z.leb_spec 4096 (Z.of_nat (length l))); destruct (Nat.leb_spec 4096 (length l)); lia).
+      rewrite El in X. rewrite exec_seq. subst long. destruct (BATCH <=? length l)%nat eqn:Elong.
+      - cbn [wa_run]. destruct (wf_run fd l s1) as [[ev ok] r]. rewrite X. destruct ok.
+        + unfold wr_szs, wr_body, wr_for, wr_st; cbn [fn_body cf_lbuf_wr]. xstep. rewrite chk_I64 by lia. xstep.
+          exists (Z.of_nat (length pend1)), (sz + Z.of_nat (length l)), bufblk. rewrite app_nil_r.
+          split; [reflexivity|]. intros _. split; [reflexivity|]. split; [reflexivity|exact Hbuf].
+        + exists (Z.of_nat (length pend1)), sz, bufblk. split; [reflexivity|discriminate].
+      - cbn [wa_run]. rewrite X.
+        unfold wr_szs, wr_body, wr_for, wr_st; cbn [fn_body cf_lbuf_wr]. xstep. rewrite chk_I64 by lia. xstep.
+        assert (Hs : (length l < 4096)%nat) by (apply Nat.leb_gt in Elong; exact Elong).
+        exists (Z.of_nat (length pend1) + Z.of_nat (length l)), (sz + Z.of_nat (length l)), (put_cells bufblk (length pend1) (map VInt (zb l))).
+        split; [reflexivity|]. intros _. split; [rewrite app_length; lia|]. split; [reflexivity|].
+        apply buf_ok_put; [exact Hbuf|apply Hfit; exact Hs|exact Hl256].
+    Qed.
+
+    (* one line *)
+    Lemma wr_body_ok (i : nat) pend bufblk s lg sz v8 v9 f' : (i < length lines)%nat -> buf_ok bufblk pend ->
+      0 <= sz /\ sz + Z.of_nat (length (nthl lines i)) <= 4611686018427387904 -> (length s + 2 <= fuel)%nat ->
+      let l := nthl lines i in
+      let '(ev, ok, r) := wa_run fd (snd (line_out BATCH pend l)) s in
+      exists bl' sz' v8' v9' bufblk',
+        exec call f' wr_body (wr_st (Z.of_nat (length pend)) sz (Z.of_nat i) v8 v9 (wm bufblk s lg))
+        = (if ok then ONormal else OReturn (VInt 1)) (wr_st bl' sz' (Z.of_nat i) v8' v9' (wm bufblk' r (lg ++ ev)))
+        /\ (ok = true -> bl' = Z.of_nat (length (fst (line_out BATCH pend l))) /\ sz' = sz + Z.of_nat (length l) /\
+                         buf_ok bufblk' (fst (line_out BATCH pend l))).
+    Proof.
+      intros Hi Hbuf Hsz Hf l.
+      destruct Hlines as [(lbblk & Hlb & Hln) (lnblk & Hbln & Hcells) Hlbs Hstr _ _].
+      destruct old_lb as (La & Na1 & Na2). destruct old_bln as (Lb & Nb1 & Nb2). destruct (old_line i Hi) as (Lc & Nc1 & Nc2).
+      set (lbi := nth i lbs O) in *.
+      assert (Hl256 : bytes_lt256 l) by (apply nonul_lt256; apply nthl_nonul).
+      assert (Hll : Z.of_nat (length l) <= 4611686018427387904) by (pose proof (nthl_len i); unfold l; lia).
+      assert (Old : forall bufblk s lg, nth_error (wm bufblk s lg) lb = Some lbblk /\ nth_error (wm bufblk s lg) bln = Some lnblk /\
+                                        str_at (wm bufblk s lg) lbi l).
+      { intros. unfold str_at. rewrite !wm_old by assumption. split; [exact Hlb|]. split; [exact Hbln|]. apply Hstr. exact Hi. }
+      destruct (Old bufblk s lg) as (M1 & M2 & M3).
+      unfold wr_body, wr_for; cbn [fn_body cf_lbuf_wr].
+      match goal with |- context [SSeq ?a (SSeq ?b (SSeq ?fl (SSeq ?lo ?z)))] =>
+        change fl with wr_flush; change lo with wr_long; change z with wr_szs end.
+      remember wr_flush as FL eqn:EFL. remember (SSeq wr_long wr_szs) as LO eqn:ELO.
+      unfold wr_st. xstep.
+      rewrite (fld_load _ lb lbblk L_ln (VPtr bln 0) _ M1 Hln) by reflexivity. xstep.
+      rewrite (fld_load _ bln lnblk i (VPtr lbi 0) _ M2 (Hcells i Hi)) by lia. xstep.
+      change 0 with (Z.of_nat 0). rewrite (builtin_strlen _ lbi l 0 M3 (nthl_nonul i)) by lia. xstep.
+      rewrite Nat.sub_0_r. change (Z.of_nat 0) with 0. rewrite wrap_I64_small by lia.
+      subst FL LO.
+      pose proof (wr_flush_ok pend (Z.of_nat (length l)) bufblk s lg sz (Z.of_nat i) (VPtr lbi 0) f' Hbuf ltac:(lia) Hf) as X1.
+      cbv zeta in X1. unfold wr_st in X1.
+      rewrite line_out_eq. cbv zeta. cbn [fst snd].
+      set (fl := (0 <? length pend)%nat && (BATCH <? length pend + length l)%nat).
+      assert (Efl : (0 <? Z.of_nat (length pend)) && (4096 <? Z.of_nat (length pend) + Z.of_nat (length l)) = fl).
+      { unfold fl, BATCH. lia. }
+      rewrite Efl in X1. rewrite wa_run_app.
+      assert (Hpl : (length pend <= 4096)%nat) by (destruct Hbuf as (Hlen & [_ H] & _); lia).
+      assert (Hb' : forall bufblk s lg, nth_error (wm bufblk s lg) lbi = Some (cstr_block (zb l))) by (intros; apply Old).
+      assert (N3 : lbi <> bb) by (unfold bb; lia).
+      destruct fl eqn:Efl'.
+      - (* the batch is flushed first *)
+        cbn [wa_run]. destruct (wf_run fd pend s) as [[ev1 ok1] r1] eqn:W1. rewrite X1. destruct ok1.
+        + pose proof (wf_run_sched_le fd pend s) as Hle. rewrite W1 in Hle. cbn [snd] in Hle.
+          pose proof (wr_rest_ok (Z.of_nat i) [] l lbi bufblk r1 (lg ++ ev1) sz f' (buf_ok_nil _ _ Hbuf) Hb' Nc1 Nc2 N3 Hl256 Hll Hsz
+                        ltac:(lia) ltac:(cbn [length]; lia)) as X2. cbv zeta in X2.
+          destruct (wa_run fd (if (BATCH <=? length l)%nat then [l] else []) r1) as [[ev2 ok2] r2].
+          destruct X2 as (bl' & sz' & bufblk' & X2 & Y2). unfold wr_st in X2. cbn [length] in X2. change (Z.of_nat 0) with 0 in X2.
+          rewrite app_nil_r. rewrite X2. exists bl', sz', (VPtr lbi 0), (VInt (Z.of_nat (length l))), bufblk'.
+          rewrite <- app_assoc. split; [reflexivity|exact Y2].
+        + exists (Z.of_nat (length pend)), sz, (VPtr lbi 0), (VInt (Z.of_nat (length l))), bufblk. split; [reflexivity|discriminate].
+      - (* the line fits, or nothing is batched *)
+        cbn [wa_run]. rewrite X1.
+        assert (Hfit : (length l < 4096)%nat -> (length pend + length l <= 4096)%nat).
+        { intro Hs. unfold fl, BATCH in Efl'. destruct (Nat.ltb_spec 0 (length pend)); [|lia]. cbn [andb] in Efl'.
+          destruct (Nat.ltb_spec 4096 (length pend + length l)); [discriminate|lia]. }
+        pose proof (wr_rest_ok (Z.of_nat i) pend l lbi bufblk s (lg ++ []) sz f' Hbuf Hb' Nc1 Nc2 N3 Hl256 Hll Hsz Hf Hfit) as X2.
+        cbv zeta in X2.
+        destruct (wa_run fd (if (BATCH <=? length l)%nat then [l] else []) s) as [[ev2 ok2] r2].
+        destruct X2 as (bl' & sz' & bufblk' & X2 & Y2). unfold wr_st in X2. rewrite X2.
+        exists bl', sz', (VPtr lbi 0), (VInt (Z.of_nat (length l))), bufblk'. rewrite app_nil_r. cbn [app].
+        split; [reflexivity|exact Y2].
+    Qed.
+  End Wr.
 End Write.
